@@ -551,6 +551,22 @@ class _Interf:
             same = now is not None and sorted(now) == sorted(rawA) and all(np.array_equal(now[k], rawA[k]) for k in rawA)
             ctx.check(same, what + ":interference:raw_data", "raw_data of the first object changed after other objects were built / used")
             ctx.label("interference:raw_data-unchanged")
+        # the repository behind provider B is updated (same key, revised table): what the SAME provider object hands out afterwards
+        # reproduces the repository's present content
+        B2 = None
+        if isinstance(self.B.get("table"), list):
+            B2 = dict(self.B, table=(np.array(self.B["table"], dtype=np.float64) * 1.75).tolist())
+        elif isinstance(self.B.get("sen"), list):
+            B2 = dict(self.B, sen=(np.array(self.B["sen"], dtype=np.float64) * 1.75).tolist())
+        if B2 is not None:
+            self.write(self.path, B2)
+            with ctx.cut(what + ":interference:construct-B-after-update"):
+                rate2 = self.get(self.ad)
+            pts2, want2, _ = self.grid(B2)
+            got2 = [_call(ctx, what + ":interference:updated-repository", rate2, p) for p in pts2]
+            ctx.close(np.array(got2) / np.array(want2), np.ones(len(want2)), what + ":interference:updated-repository", rtol=1e-9,
+                      info="(the repository was updated for this key after the provider had served it; same provider object asked again)")
+            ctx.label("interference:repository-updated")
         _counts["interference_values"] += 2 * max(len(ptsA), len(self.pts)) + 5
         ctx.label("interference", "interference:providers-same-path-other-flags")
 
